@@ -176,27 +176,17 @@ def Obs.relabel (f : String → String) (o : Obs) : Obs :=
 def composeMaps (names : List String) (m₁ m₂ : List (String × String)) : List (String × String) :=
   names.map fun n => (n, applyMap m₂ (applyMap m₁ n))
 
-/-- a collection as `create` writes it -/
+/-- a collection as `create` writes it: one length per name and, with the enum encoding, a header that
+numbers the names 0,1,2,… in table order (`write_bins`: `idmap = dict(zip(chromnames, range(n)))`).
+Distinctness of names is not part of it: it is a hypothesis of the lookup theorems only. -/
 structure ValidStore (s : RStore) : Prop where
   lens : s.lengths.length = s.names.length
   hdr : ∀ d, s.enc = .enum d → d = idMap s.names
-  nodup : s.names.Nodup
 
-instance (s : RStore) : Decidable (ValidStore s) :=
-  if h : s.lengths.length = s.names.length ∧
-      (match s.enc with | .enum d => d = idMap s.names | .plain => True) ∧ s.names.Nodup then
-    isTrue ⟨h.1, by
-      intro d hd
-      have := h.2.1
-      rw [hd] at this
-      exact this, h.2.2⟩
-  else isFalse (by
-    intro v
-    apply h
-    refine ⟨v.lens, ?_, v.nodup⟩
-    cases he : s.enc with
-    | enum d => exact v.hdr d he
-    | plain => trivial)
+/-- executable twin of `ValidStore` (used by the driver) -/
+def validStoreB (s : RStore) : Bool :=
+  (s.lengths.length == s.names.length) &&
+  (match s.enc with | .enum d => d == idMap s.names | .plain => true)
 
 /-- a chain of renamings on one object -/
 def renameChain (fits : List (String × Nat) → Bool) (s : RStore) : List (List (String × String)) → RStore
